@@ -1,5 +1,6 @@
 import GarbleVerif.Proofs.Encoding
 import GarbleVerif.Model.SrcSem
+import GarbleVerif.Proofs.BitWidth
 /-!
 # C05 — accepted programs compile to valid circuits whose I/O shape matches their types
 
@@ -11,8 +12,12 @@ generated program that the compiled circuit has exactly this shape (`input_gates
 output wires), passes `Circuit::validate`, and returns `Val.encode` of the value the source
 semantics compute.
 
-`compile.rs` is not modelled as a whole: that *every* accepted program compiles without a panic
-to a valid circuit is explored, not proved.
+At the level of the compiler model (Model/BitSem.lean — every expression and statement form except for-join
+loops): `C05_output_width` — the compiled body of a function has exactly `size(T)` output wires for its result type
+`T`, for ANY wires on the inputs (valid encodings or not, panicking runs included), and `C01_core` says they are the
+encoding of the value when the run does not panic. What is not modelled and therefore explored: that the type
+checker accepts exactly the well-typed programs, that `compile()` itself never panics on an accepted program, and
+`Circuit::validate` of the gate-level result (the value-level model has no gates; C16 / C04 cover gate lists).
 -/
 namespace GV
 
@@ -30,4 +35,26 @@ theorem C05_output_shape (panic : List Bool) (v : Val) (t : Ty) (hp : panic.leng
   rw [← hp, List.drop_left]
   exact Val.decode_encode v t h
 
+
+namespace Bit
+open Src
+
+/-- **C05, output shape at the level of the compiler model**: for every program of the fragment of Model/BitSem.lean
+(every expression and statement form except for-join loops), every inlining depth and ANY wires on the inputs — as
+many per variable as its type has bits, whether or not they encode a value, whether or not the execution panics —
+the compiled body has exactly `size(T)` output wires for its result type `T`, and every variable still has as many
+wires as its type has bits -/
+theorem C05_output_width (prog : Prog) (depth : Nat) (benv benv' : BEnv) (body : StmtList) (t : VTy) (bits : List Bool)
+    (p : P) (hw : WFB benv) (h : bitStmts ⟨callAt prog depth, prog.enum?⟩ benv body = some (t, bits, p, benv')) :
+    bits.length = t.toTy.size :=
+  (width_program prog depth benv benv' body t bits p hw h).1
+
+/-- non-vacuity: a `u8` parameter bound to eight wires -/
+example : WFB [("x", .s (.int .u8), List.replicate 8 true)] := by
+  intro e he
+  simp only [List.mem_singleton] at he
+  subst he
+  rfl
+
+end Bit
 end GV
